@@ -120,7 +120,7 @@ Section AlphaProofs.
     if is_kind "Lifetime" l || is_kind "PredLifetime" l then Node (K (lk l) (rl (ld l))) ks'
     else if is_kind "TPath" l || is_kind "EPath" l then
       match ks' with
-      | [q; p] => Node l [q; rename_first_seg rt p]
+      | [q; p] => if no_qself q then Node l [q; rename_first_seg rt p] else Node l ks'
       | _ => Node l ks'
       end
     else Node l ks'.
@@ -131,8 +131,12 @@ Section AlphaProofs.
     destruct t as [l ks]. rewrite alpha_eq. cbv zeta.
     destruct (is_kind "Lifetime" l || is_kind "PredLifetime" l); [reflexivity|].
     destruct (is_kind "TPath" l || is_kind "EPath" l); [|reflexivity].
-    destruct (map alpha ks) as [|q [|p [|]]]; reflexivity.
+    destruct (map alpha ks) as [|q [|p [|]]]; try reflexivity.
+    destruct (no_qself q); reflexivity.
   Qed.
+
+  Lemma no_qself_alpha q : no_qself (alpha q) = no_qself q.
+  Proof. unfold no_qself, is_kind. rewrite alpha_kind. reflexivity. Qed.
 
   Lemma alpha_kids_len t : List.length (tkids (alpha t)) = List.length (tkids t).
   Proof.
@@ -140,7 +144,8 @@ Section AlphaProofs.
     destruct (is_kind "Lifetime" l || is_kind "PredLifetime" l); [cbn [tkids]; apply map_length|].
     destruct (is_kind "TPath" l || is_kind "EPath" l); [|cbn [tkids]; apply map_length].
     destruct ks as [|q [|p [|x r]]]; cbn [map tkids List.length]; try reflexivity.
-    rewrite map_length. reflexivity.
+    - destruct (no_qself (alpha q)); reflexivity.
+    - rewrite map_length. reflexivity.
   Qed.
 
   Lemma args_none_alpha sargs :
@@ -178,7 +183,8 @@ Section AlphaProofs.
       rewrite (H (Node lp ks) eq_refl).
       destruct (is_kind "Lifetime" lp || is_kind "PredLifetime" lp); [apply H; reflexivity|].
       destruct (is_kind "TPath" lp || is_kind "EPath" lp); [|apply H; reflexivity].
-      destruct (map alpha ks) as [|q [|p [|]]]; apply H; reflexivity.
+      destruct (map alpha ks) as [|q [|p [|]]]; try (apply H; reflexivity).
+      destruct (no_qself q); apply H; reflexivity.
   Qed.
 
   (* the indexer commutes with alpha-renaming *)
@@ -194,17 +200,15 @@ Section AlphaProofs.
       rewrite try_index_map. cbn [fst]. apply Hfold. }
     destruct (is_kind "TPath" l || is_kind "EPath" l) eqn:Ep.
     { destruct ks as [|q [|p [|x ks]]].
-      - cbn [map]. rewrite !index_term_eq, El.
-        destruct (is_kind "TPath" l); [reflexivity|]. destruct (is_kind "EPath" l); reflexivity.
-      - cbn [map]. rewrite !index_term_eq, El.
-        inversion IH as [|? ? Hq _]; subst.
-        destruct (is_kind "TPath" l); [cbn [fold_left]; apply Hq|].
-        destruct (is_kind "EPath" l); cbn [fold_left]; apply Hq.
+      - cbn [map]. rewrite !index_term_eq, El, Ep. reflexivity.
+      - cbn [map]. rewrite !index_term_eq, El, Ep.
+        inversion IH as [|? ? Hq _]; subst. cbn [fold_left]. apply Hq.
       - cbn [map]. inversion IH as [|? ? Hq IH1]; subst. inversion IH1 as [|? ? Hp _]; subst.
-        rewrite !index_term_eq, El. cbv zeta.
-        rewrite Hq, first_seg_rename, first_seg_alpha.
-        destruct (is_kind "TPath" l) eqn:Et.
-        + destruct (first_seg p) as [[n bare]|].
+        rewrite no_qself_alpha.
+        destruct (no_qself q) eqn:Enq.
+        + rewrite !index_term_eq, El, Ep. cbv zeta. rewrite no_qself_alpha, Enq.
+          rewrite Hq, first_seg_rename, first_seg_alpha.
+          destruct (first_seg p) as [[n bare]|].
           * change (rt n) with (rk PTy n). rewrite try_index_map.
             rewrite (try_index_pair (index_term st q) PTy n).
             destruct (snd (try_index (index_term st q) PTy n)).
@@ -214,20 +218,12 @@ Section AlphaProofs.
                   rewrite index_renamed_path. apply Hp.
                ++ rewrite index_renamed_path. apply Hp.
           * rewrite index_renamed_path. apply Hp.
-        + destruct (is_kind "EPath" l) eqn:Ee; [|discriminate].
-          destruct (first_seg p) as [[n bare]|].
-          * change (rt n) with (rk PTy n). rewrite try_index_map.
-            rewrite (try_index_pair (index_term st q) PTy n).
-            destruct (snd (try_index (index_term st q) PTy n)).
-            -- rewrite index_renamed_path. apply Hp.
-            -- change (rk PTy n) with (rk PCt n). rewrite try_index_map. cbn [fst].
-               rewrite index_renamed_path. apply Hp.
-          * rewrite index_renamed_path. apply Hp.
-      - cbn [map]. rewrite !index_term_eq, El.
+        + cbn [map]. rewrite !index_term_eq, El, Ep. cbv zeta. rewrite no_qself_alpha, Enq.
+          rewrite Hq. apply Hp.
+      - cbn [map]. rewrite !index_term_eq, El, Ep.
         change (alpha q :: alpha p :: alpha x :: map alpha ks) with (map alpha (q :: p :: x :: ks)).
-        destruct (is_kind "TPath" l); [apply Hfold|]. destruct (is_kind "EPath" l); apply Hfold. }
-    rewrite !index_term_eq, El.
-    apply orb_false_iff in Ep. destruct Ep as [E1 E2]. rewrite E1, E2. apply Hfold.
+        apply Hfold. }
+    rewrite !index_term_eq, El, Ep. apply Hfold.
   Qed.
 
   Notation alpha_gp := (alpha_gp rl rt).
